@@ -32,7 +32,7 @@ def run(chk, repo: Repo):
     chk.rule("C01-R1", "validation guards dominate the evaluation / conditioning they protect; values given by name reach the conditioned copy by name; "
                        "nothing the caller gave is dropped: the positional main parameter is evaluated alone only when no other keyword is left over, "
                        "Distribution._condition returns only after unused keywords were looked at and (if there are some) the refusal of unknown names was passed, "
-                       "JointDistribution._condition refuses a name that no factor accepts", floor=9)
+                       "JointDistribution._condition refuses a name that no factor accepts; callable parameters receive the matched values by name (`f(**matched)`)", floor=9)
     chk.rule("C01-R2", "no folded constant and no factor is lost by reduction, evaluation or full conditioning; `_constant` is only added to; a Posterior is constructed only at tabled sites or handed to _add_constants_to_density; "
                        "the raw evaluation `_logd` is called from Density.logd only; a likelihood stores the observation it was given", floor=8)
     chk.rule("C01-R6", "partially conditioned callables keep the arguments they were given: no closure created inside the conditioning loops captures a "
